@@ -23,7 +23,7 @@ def witness(title_prefix):
     raise KeyError(title_prefix)
 
 
-from props._session import SessionStream
+from props._session import SessionStream, grammar_failures, protocol_following
 
 
 class Sess(SessionStream):
@@ -31,6 +31,15 @@ class Sess(SessionStream):
     driver = "drivers/Session.lean"
     quick_cases = 450
     quick_seconds = 30
+
+    def oracle(self, case, obs):
+        # the statement speaks of the streams real runs produce: call sequences the runner can issue
+        if obs["error"] is not None or not protocol_following(case["ops"]):
+            return []
+        return grammar_failures("C07", case["ops"], obs["fired"])
+
+    def features(self, case, obs):
+        return SessionStream.features(self, case, obs) + ["protocol_following=%s" % protocol_following(case["ops"])]
 
 
 class Run(PropRunStream):
